@@ -25,14 +25,14 @@ ASSUMPTIONS = [
     'Rayleigh and Mie components are checked for proportionality to abundance / against C19, not against an independent cross-section',
     'H- is not generated (needs H and e- species; its absorption law is outside this property)',
 ]
-REQUIRED = {'ncontrib>=2': 0.5, 'multi-component': 0.4, 'zero-species': 0.15, 'probe:fresh': 0.1,
+REQUIRED = {'probe:contrib-first': 0.08, 'ncontrib>=2': 0.5, 'multi-component': 0.4, 'zero-species': 0.15, 'probe:fresh': 0.1,
             'probe:subgrid': 0.1, 'probe:param-change': 0.1}
 POOL = ['Absorption', 'CIA', 'Rayleigh', 'SimpleClouds', 'FlatMie', 'LeeMie']
 
 
 @st.composite
 def _case(draw):
-    probe = draw(st.sampled_from(['after-model', 'fresh', 'subgrid', 'param-change']))
+    probe = draw(st.sampled_from(['after-model', 'fresh', 'subgrid', 'param-change', 'contrib-first']))
     k = draw(st.integers(1, 5))
     order = draw(st.permutations(POOL))[:k]
     if 'Absorption' not in order and draw(st.booleans()):
@@ -140,10 +140,28 @@ def check(case):
                 changed = True
                 full = cut(out, 'model_full_contrib@after-param-change', m.model_full_contrib)
                 res = cut(out, 'model', m.model)
+            elif case['probe'] == 'contrib-first':
+                # run once, change a profile parameter, then ask for the decomposition BEFORE the
+                # next model() call: it must describe the current parameters
+                cut(out, 'model', m.model)
+                mult = 3.0
+                for pname in list(m.fittingParameters):
+                    if pname in [g['mol'] for g in wz['gases'] if g.get('logtop') is None and not g.get('zero')]:
+                        if m[pname] * mult < 0.2:
+                            m[pname] = m[pname] * mult
+                            wz_changed = (pname, mult)
+                            break
+                if 'T' in m.fittingParameters:
+                    m['T'] = m['T'] * 0.8
+                    wz_T = 0.8
+                per = cut(out, 'model_contrib@before-model', m.model_contrib)
+                full = cut(out, 'model_full_contrib', m.model_full_contrib)
+                res = cut(out, 'model', m.model)
             else:
                 res = cut(out, 'model', m.model)
                 full = cut(out, 'model_full_contrib', m.model_full_contrib)
-            per = cut(out, 'model_contrib', m.model_contrib)
+            if case['probe'] != 'contrib-first':
+                per = cut(out, 'model_contrib', m.model_contrib)
     except CutError:
         return out
     wn, depth, trans, _ = res
@@ -159,7 +177,7 @@ def check(case):
     dup = len(set(cnames)) < len(cnames)
     if dup:
         out.cls('duplicate-contribution-name')
-    compare_trans(out, 'product-over-contributions' + ('@duplicate-name' if dup else ''), trans, prod)
+    compare_trans(out, 'product-over-contributions' + ('@duplicate-name' if dup else '') + (',contrib-first' if case['probe'] == 'contrib-first' else ''), trans, prod)
     if set(per[1].keys()) != set(cnames) or len(per[1]) != len(cnames):
         out.fail('product-over-contributions@names' + (',duplicate-name' if dup else ''),
                  '%s vs %s' % (sorted(per[1]), sorted(cnames)))
@@ -228,7 +246,7 @@ def check(case):
     dz = np.asarray(m.deltaz, dtype=float)
     slack = 2.0 * float(np.sum((Rp + z) * dz)) * math.exp(-10.0) / (Rs * Rs)
     try:
-        if list(case['order2']) != names and len(cnames) >= 2:
+        if list(case['order2']) != names and len(cnames) >= 2 and case['probe'] != 'contrib-first':
             out.cls('reordered')
             W2 = cut(out, 'build-world', build, wz)
             m2 = cut(out, 'build-model', synth.make_model, W2, 'transmission',
@@ -240,7 +258,7 @@ def check(case):
             if not close(r2[1], depth, rtol=1e-9, atol=slack):
                 out.fail('order-independent', 'orders %s / %s: max rel %.2e' % (names, case['order2'], maxrel(r2[1], depth)))
         # ---- a species at exactly zero abundance changes nothing -----------------------------------
-        if case['zero'] and len(wz['gases']) > len(w['gases']):
+        if case['zero'] and len(wz['gases']) > len(w['gases']) and case['probe'] != 'contrib-first':
             W3 = cut(out, 'build-world', build, w)
             m3 = cut(out, 'build-model', synth.make_model, W3, 'transmission', make_contribs(W3, names, mie), **kw)
             _same_param_change(m3, changed)
